@@ -1,2 +1,39 @@
-(* C12 (statements follow) *)
-From GJS Require Import Base Regex Schema GoType Gen.
+(* C12 - output is a deterministic function of schema content and options.
+   Statements only; every proof is `exact <lemma>`; Print Assumptions under each.
+   Every place where the code iterates over a Go map is an arbitrary permutation here (a list in
+   any order); the theorems say the result does not depend on it.  The bytes are render(IR);
+   the emitter and go/format are pure functions of the IR and are trusted, not modelled. *)
+From GJS Require Import Base Schema GoType Gen Driver DriverP.
+
+(* properties and definitions are visited in sorted key order: sorting any two orders of the same
+   map (distinct keys) gives the same list *)
+Theorem C12_sorted_visit : forall (A : Type) (l l' : list (str * A)),
+  NoDup (map fst l) -> Permutation l l' -> sort_props l = sort_props l'.
+Proof. exact @sort_props_perm. Qed.
+Print Assumptions C12_sorted_visit.
+
+(* hence the field list of a struct (names, order, suffixes) is a function of the property map *)
+Theorem C12_field_order : forall idf (props props' : list (str * schema)),
+  NoDup (map fst props) -> Permutation props props' -> prop_names idf props = prop_names idf props'.
+Proof. intros idf props props' ND P. unfold prop_names. rewrite (sort_props_perm props props' ND P). reflexivity. Qed.
+Print Assumptions C12_field_order.
+
+(* looking a key up (definitions, required sets, mappings by id) does not depend on the entry order *)
+Theorem C12_lookup : forall (A : Type) (l l' : list (str * A)) k, NoDup (map fst l) -> Permutation l l' -> lookup k l = lookup k l'.
+Proof. exact @lookup_perm. Qed.
+Print Assumptions C12_lookup.
+
+(* the scan over the outputs map in beginOutput (conflict check, reuse) is order-free as long as file names are distinct *)
+Theorem C12_outputs_scan : forall outs outs' file pkg,
+  files_distinct outs -> Permutation outs outs' -> scan_outputs outs file pkg = scan_outputs outs' file pkg.
+Proof. exact scan_outputs_order. Qed.
+Print Assumptions C12_outputs_scan.
+
+(* Sources(): concatenation per file name over the outputs map gives the same content for every file in every order *)
+Theorem C12_sources : forall texts texts' k, k <> [] -> NoDup (map fst texts) -> Permutation texts texts' ->
+  lookup k (sources texts) = lookup k (sources texts').
+Proof. exact sources_order. Qed.
+Print Assumptions C12_sources.
+
+Example C12_example : sort_props [([98]%N, 1); ([97]%N, 2); ([99]%N, 3)] = sort_props [([99]%N, 3); ([97]%N, 2); ([98]%N, 1)].
+Proof. reflexivity. Qed.
